@@ -63,6 +63,8 @@ def parsePkt (s : String) : Option Srv :=
   | ("sa", none) => some .serviceAccept
   | ("x7", none) => some (.extInfo none)
   | ("x7", some v) => some (.extInfo (some v))
+  | ("x8", some v) => some (.extInfo (some v))   -- same content, server-sig-algs as the LAST extension
+  | ("x9", some v) => some (.extInfo (some v))   -- server-sig-algs as the only extension
   | ("f", some rest) =>
     match cut rest ":" with
     | (ms, some "0") => some (.failure (if ms == "-" then [] else ms.splitOn ",") false)
